@@ -2,14 +2,18 @@ package main
 
 import (
 	"bytes"
+	"context"
 	"encoding/json"
 	"fmt"
 	"os"
 	"os/exec"
 	"reflect"
+	"runtime"
 	"sort"
 	"strings"
 	"sync"
+	"sync/atomic"
+	"time"
 
 	"github.com/dave/jennifer/jen"
 	"github.com/dave/jennifer/simhook"
@@ -908,9 +912,11 @@ func raceBatch(jobs []ConcJob, repeat int) (mismatch string) {
 		close(start)
 		wg.Wait()
 		all = append(all, results)
+		raceBeat.Store(time.Now().UnixNano())
 	}
 	refs := make([]jobResult, len(jobs))
 	for i, j := range jobs {
+		raceBeat.Store(time.Now().UnixNano())
 		os.MkdirAll(fmt.Sprintf("%s/solo%d", sb, i), 0755)
 		refs[i], _ = soloRun(j, copyNames(table), fmt.Sprintf("%s/solo%d", sb, i), fmt.Sprintf("job%d", i))
 	}
@@ -937,8 +943,29 @@ func raceJobs(seed uint64, n int) []ConcJob {
 	return jobs
 }
 
+var raceBeat atomic.Int64
+
+// raceWatchdog: the race-enabled binary is linked with cgo, which switches the runtime's
+// deadlock detector off, so a blocked-forever state needs a wall-clock limit: no progress
+// (a finished batch or solo run) for 120 s on work that takes milliseconds.
+func raceWatchdog() {
+	raceBeat.Store(time.Now().UnixNano())
+	go func() {
+		for {
+			time.Sleep(3 * time.Second)
+			if time.Since(time.Unix(0, raceBeat.Load())) > 120*time.Second {
+				buf := make([]byte, 1<<16)
+				n := runtime.Stack(buf, true)
+				fmt.Printf("RACE-LEG-STUCK: no build+render job made progress for 120s\n%s\n", buf[:n])
+				os.Exit(67)
+			}
+		}
+	}()
+}
+
 // raceSweep (runs inside the race-enabled plain binary): rounds of 16 fresh jobs.
 func raceSweep(base uint64, rounds int) int {
+	raceWatchdog()
 	for rd := 0; rd < rounds; rd++ {
 		jobs := raceJobs(Mix(base, 0xace, uint64(rd)), 16)
 		if m := raceBatch(jobs, 2); m != "" {
@@ -963,6 +990,7 @@ func raceExecFile(path string) int {
 	if rep <= 0 {
 		rep = 10
 	}
+	raceWatchdog()
 	if m := raceBatch(c.Conc.Jobs, rep); m != "" {
 		fmt.Printf("RACE-LEG-MISMATCH %s\n", m)
 		return 1
@@ -978,7 +1006,9 @@ func runRaceBinary(args ...string) (out string, code int, err error) {
 	if _, e := os.Stat(bin); e != nil {
 		return "", 0, fmt.Errorf("race-enabled runner not built: %v", e)
 	}
-	cmd := exec.Command(bin, args...)
+	ctx, cancel := context.WithTimeout(context.Background(), 3*time.Hour)
+	defer cancel()
+	cmd := exec.CommandContext(ctx, bin, args...)
 	cmd.Env = append(os.Environ(), "GORACE=halt_on_error=1 exitcode=66", "GOMAXPROCS=16")
 	b, _ := cmd.CombinedOutput()
 	code = -1
@@ -994,6 +1024,8 @@ func raceVerdict(out string, code int) *Violation {
 		return &Violation{Rule: "C09-O3-data-race", Detail: "the race detector reports a data race between independent build+render jobs on different goroutines", Observed: trunc(out, 3000)}
 	case strings.Contains(out, "fatal error: concurrent map"):
 		return &Violation{Rule: "C09-O3-data-race", Detail: "runtime: concurrent map access between independent jobs", Observed: trunc(out, 3000)}
+	case code == 67 || strings.Contains(out, "RACE-LEG-STUCK"):
+		return &Violation{Rule: "C09-deadlock", Detail: "independent build+render jobs on different goroutines block forever (real-goroutine leg: no job made progress for 120 s on work that takes milliseconds)", Observed: trunc(out, 3000)}
 	case strings.Contains(out, "RACE-LEG-MISMATCH"):
 		i := strings.Index(out, "RACE-LEG-MISMATCH")
 		return &Violation{Rule: "C09-O1-result-differs", Detail: "real-goroutine leg: " + trunc(out[i:], 600)}
@@ -1026,31 +1058,31 @@ func checkRaceCase(c *Case, ri *RunInfo) (*Violation, *RunInfo) {
 }
 
 // Post runs the real-goroutine race leg after the simulated sweep.
-func (propC09) Post(tier string, base uint64) ([]workerViolation, map[string]int) {
+func (propC09) Post(tier string, base uint64) ([]workerViolation, map[string]int, error) {
 	rounds := 25
 	if tier == "thorough" {
 		rounds = 1500
 	}
 	counters := map[string]int{}
 	if os.Getenv("VERIF_NO_RACE_LEG") != "" { // diagnostics only: measure what the simulated legs catch on their own
-		return nil, counters
+		return nil, counters, nil
 	}
 	out, code, err := runRaceBinary("racesweep", fmt.Sprint(base), fmt.Sprint(rounds))
 	if err != nil {
-		fatal2("race leg: %v", err)
+		return nil, counters, fmt.Errorf("race leg: %v", err)
 	}
 	done := strings.Count(out, "ROUND ")
 	counters["race_leg_rounds_of_16_jobs_x2"] = done
 	v := raceVerdict(out, code)
 	if v == nil {
 		if code != 0 {
-			fatal2("race leg exited %d:\n%s", code, trunc(out, 2000))
+			return nil, counters, fmt.Errorf("race leg exited %d:\n%s", code, trunc(out, 2000))
 		}
-		return nil, counters
+		return nil, counters, nil
 	}
 	rd := done // the round that was running
 	jobs := raceJobs(Mix(base, 0xace, uint64(rd)), 16)
 	c := &Case{Property: "C09", Seed: Mix(base, 0xace, uint64(rd)), Tier: tier, Conc: &ConcCase{Mode: "race", Jobs: jobs, Repeat: 20}}
 	v.Detail += fmt.Sprintf(" (race-leg round %d; the schedule of this leg is the Go runtime's, so the replay file carries the 16 jobs and a repeat count)", rd)
-	return []workerViolation{{Index: -1 - rd, Seed: c.Seed, V: v, Case: c}}, counters
+	return []workerViolation{{Index: -1 - rd, Seed: c.Seed, V: v, Case: c}}, counters, nil
 }
